@@ -84,7 +84,18 @@ def scan_call_sites(rep):
     a = sites(r"\.try_interrupt\(")
     o = rep.add(Obl("C10/scan/try_interrupt_only_at_the_loop_head_of_run", "call-graph scan", unit="scan", fn="Cpu::run"))
     run_src = texts.get("src/cpu.rs", "")
-    ok = len(a) == 1 and a[0].startswith("src/cpu.rs") and re.search(r"// Interrupt\s*\n\s*self\.try_interrupt\(\)\?;\s*\n(?:.*\n){0,6}?\s*let opcode = self\.fetch\(\);", run_src) is not None
+    # structural, not textual: the single call site lies inside `fn run`, inside its loop, before the fetch of the
+    # same iteration and after the previous iteration's exec (comments and blank lines do not matter)
+    ok = False
+    ia = run_src.find("pub fn run(&mut self)")
+    ib = run_src.find("pub fn fetch(&mut self)")
+    if len(a) == 1 and a[0].startswith("src/cpu.rs") and ia >= 0 and ib > ia:
+        body = run_src[ia:ib]
+        il = body.find("loop {")
+        it = body.find(".try_interrupt(")
+        ifetch = body.find("self.fetch()")
+        iexec = body.find("self.exec(")
+        ok = 0 <= il < it < ifetch < iexec
     o.status = DISCHARGED if ok else FAILED
     o.detail = "call sites: %s" % a
     b = sites(r"\.interrupt\(")
@@ -261,8 +272,9 @@ def check_custom_only(prop, tier):
 def check_c15(prop, tier):
     rep = new_report(prop, tier, "automatic panic/overflow/bounds/unwrap obligations generated by Kani inside /repo/src over every contract harness (full symbolic domains), Verus overflow obligations of the extracted units, plus err-on-unmapped clauses")
     run_kani_both(rep, prop)
-    if tier == "thorough":
-        # every dispatch target with fully symbolic words (undefined encodings included): automatic checks only
+    if True:
+        # every dispatch target with every pair of words exec can hand to it (undefined encodings included; the
+        # guards are generated from exec's text and self-checked by the dispatch harness): automatic checks only
         names = json.load(open(os.path.join(VERIF, "lib", "c07_targets.json"))).get("c15_any", [])
         log = os.path.join(kani_run.CACHE, "logs", "C15-any.log")
         r = kani_run.run_harnesses(["cpu::verif_hooks::kc15::" + n for n in names], harness_timeout=1800, log_path=log)
@@ -279,12 +291,12 @@ def check_c15(prop, tier):
                 if not any(x["id"] == oid for x in rep.extra_failed):
                     rep.auto_failed += 1
                     rep.extra_failed.append({"id": oid, "detail": "CBMC: FAILURE of automatic check '%s' at %s:%d in %s (harness %s, fully symbolic encoding)" % (fc["desc"], fc["file"], fc["line"], fc["func"], n), "unit": n, "function": fc["func"]})
-        rep.notes.append("thorough: %d harnesses call every dispatch target of Cpu::exec with fully symbolic instruction words (undefined encodings included)" % len(names))
+        rep.notes.append("%d harnesses call every dispatch target of Cpu::exec with all words the dispatcher can hand to it (undefined encodings included)" % len(names))
     for unit, fns in (("bus", "Bus::read, Bus::write, ioport helpers"), ("irq", "request_interrupt, try_interrupt"), ("run", "Cpu::run")):
         custom_check.run_verus_unit(rep, prop, unit, fns)
     rep.assumptions.append("overflow/shift checks are the overflow-checking build configuration; panic/bounds/unwrap/division checks hold for both configurations")
     rep.assumptions.append("control-channel lines are parsed inside the socket block of Cpu::run, which is outside this technique (C18 not applicable)")
-    rep.assumptions.append("undefined encodings (neither implemented nor named by the manual) are covered only through the dispatcher harness with stubbed targets")
+    rep.assumptions.append("undefined encodings: every dispatch target is run with all words Cpu::exec can pass to it (guards derived from exec's text, self-checked in the C07 dispatch harness as SELF/dispatch/generated_guards_hold)")
     return rep.finish(native.find_witness)
 
 
